@@ -125,7 +125,8 @@ class FusedIO(BlockwiseIO):
         if new_divisions[0] is None:
             new_divisions.append(None)
         else:
-            new_divisions.append(self._fusion_buckets[-1][-1])
+            # upper bound of the last partition of the last bucket
+            new_divisions.append(divisions[self._fusion_buckets[-1][-1] + 1])
         return tuple(new_divisions)
 
     def _task(self, index: int):
